@@ -246,6 +246,41 @@ inductive BaseTerm where
   | const (n : Nat)
   deriving DecidableEq, Repr
 
+/-- Which wire form a client entry point frames its slice in. -/
+inductive WireForm where
+  | regular   -- `MessageBuilder::body_typed_slice`
+  | aligned   -- `MessageBuilder::body_aligned_typed_slice`
+  deriving DecidableEq, Repr
+
+/-- Facts about one client (`Client` / `AsyncClient`). -/
+structure ClientFacts where
+  /-- `call_with_body_and_timeout` sets the query on the builder before it applies the body closure -/
+  queryFirst : Bool
+  /-- the builder method reached from `call_typed_slice` / `call_typed_slice_with_timeout` -/
+  bulkPlain : WireForm
+  bulkTimeout : WireForm
+  /-- … from `call_typed_slice_aligned` / `call_typed_slice_aligned_with_timeout` -/
+  alignedPlain : WireForm
+  alignedTimeout : WireForm
+  deriving DecidableEq, Repr
+
+/-- Layout constants of the dependency, read from the beve crate source the lock file names. -/
+structure BeveFacts where
+  typeTypedArray : Nat
+  typeGenericArray : Nat
+  typeExtension : Nat
+  extComplex : Nat
+  arrayFloat : Nat
+  arraySigned : Nat
+  arrayUnsigned : Nat
+  arrayBoolOrString : Nat
+  alignedDiscriminator : Nat
+  /-- exponents of the SIZE thresholds (`n < 1 << e`) in `write_size`, `size_encoded_len`, `encode_size_to_array` -/
+  sizeThresholds : List (List Nat)
+  /-- `impl BeveTypedSlice`: (class, byte code, bytes per element) -/
+  impls : List (Nat × Nat × Nat)
+  deriving DecidableEq, Repr
+
 /-- Facts read off the current source by `extract/numeric.py`. -/
 structure Facts where
   /-- `BEVE_ALIGNED_TYPED_ARRAY_MARKER` in `server.rs` -/
@@ -261,6 +296,10 @@ structure Facts where
   serverGuards : Bool
   /-- the bulk decoders also accept serde's encoding of the empty vector (`05 00`) -/
   emptyGeneric : Bool
+  /-- `create_typed_slice_response_unstamped(_view)` frame the result with `body_typed_slice` -/
+  respBulk : Bool
+  syncClient : ClientFacts
+  asyncClient : ClientFacts
   deriving DecidableEq, Repr
 
 def BEVE : Nat := 1
@@ -451,10 +490,23 @@ def call (F : Facts) (k : ClientKind) (r : RouteKind) (t : ElemTy) (qlen addr : 
     | .ok ys => .ok ys
     | .error e => .error (.client e)
 
-/-- The request message a client helper (`call_typed_slice`, `call_typed_slice_aligned`,
-`call_typed_beve` of `Client` / `AsyncClient`) builds: id, JSON-pointer query set *first*, then the
-body for that query. -/
-def clientRequest (F : Facts) (k : ClientKind) (t : ElemTy) (id : Nat) (path : Bytes) (xs : List Bytes) : Message :=
-  (sliceBuilder id false 0 1 path (requestBody F k t path.length xs)).build
+/-- The body a client entry point builds.  `timeout` selects the `_with_timeout` twin.  The query
+length the aligned builder sees is the path's only if the query is set before the body closure runs. -/
+def clientBody (F : Facts) (C : ClientFacts) (k : ClientKind) (timeout : Bool) (t : ElemTy) (qlen : Nat)
+    (xs : List Bytes) : Bytes :=
+  let form (w : WireForm) : Bytes :=
+    match w with
+    | .regular => bodyTypedSlice t xs
+    | .aligned => bodyAlignedTypedSlice F t (if C.queryFirst then qlen else 0) xs
+  match k with
+  | .bulk => form (if timeout then C.bulkTimeout else C.bulkPlain)
+  | .aligned => form (if timeout then C.alignedTimeout else C.alignedPlain)
+  | .serde => encodeGeneric t xs
+
+/-- The request message a client entry point (`call_typed_slice*`, `call_typed_slice_aligned*`,
+`call_typed_beve*` of `Client` / `AsyncClient`) puts on the wire: id, JSON-pointer query, body. -/
+def clientRequest (F : Facts) (C : ClientFacts) (k : ClientKind) (timeout : Bool) (t : ElemTy) (id : Nat)
+    (path : Bytes) (xs : List Bytes) : Message :=
+  (sliceBuilder id false 0 1 path (clientBody F C k timeout t path.length xs)).build
 
 end Repe.Beve
